@@ -228,6 +228,9 @@ fn run_history(case: &Value, class: &str, steps: &[(usize, i32)], seed: u64, rep
                 return;
             }
             if finite_expected && !close(got[i], want, 1e-5) {
+                // C04: "apply exactly one optimizer step" -- the step IS this documented update; training with another one
+                // is not the descent the statement describes
+                rep.mismatch("C04", "optimizer_step_is_not_the_documented_update", id, json!({"class": class, "slot": slot, "element": i, "expected": want, "observed": got[i]}), case);
                 rep.mismatch(
                     "C03",
                     "update_rule",
